@@ -193,7 +193,7 @@ func c05Packers(p *Prog, r *Report) {
 		n++
 		info := fc.Info()
 		sig := fc.Obj.Type().(*types.Signature)
-		isClient := sig.Params().Len() == 5 && sig.Params().At(0).Name() == "ctx"
+		isClient := sig.Params().Len() == 5 && types.TypeString(sig.Params().At(0).Type(), nil) == "context.Context"
 		var payloadStart, payloadLen, maxLenParam types.Object
 		infoMethod := "ServerPackerInfo"
 		if isClient {
